@@ -380,6 +380,8 @@ func runC14(c *Ctx) {
 	c.Rule("C14.M", "rendered pages and spliced prefixes live in call-owned buffers", 2)
 	rulePooledMemory(c, p, "C14.M", "agent/banner", "agent/websockets")
 	ruleSharedScratch(c, p, "C14.M", "agent/banner", "agent/websockets", "agent")
+	c.Rule("C14.F", "the (possibly framed or spliced) response is serialised with chunked framing: the backend's Content-Length describes a body the injection has changed (= C03.C)", 1)
+	ruleForcedChunked(c, p, "C14.F")
 	c.Rule("C14.P", "injection does not reconfigure the backend-facing proxy beyond ModifyResponse", 3)
 	ruleReverseProxyFields(c, p, "C14.P")
 
@@ -481,6 +483,9 @@ func runC14(c *Ctx) {
 			// the substrings handed to a new search helper (anyValueContains(values, "text/html", …))
 			if h := syncHelperCallee(i); h != nil && i.Parent() == f {
 				for _, a := range PArgs(CallOf(i)) {
+					if a == nil {
+						continue
+					}
 					if s, ok := ConstString(a); ok {
 						consts[s] = true
 					}
@@ -707,14 +712,36 @@ func runC14(c *Ctx) {
 		{
 			badErr := ""
 			nerr := 0
+			// the hook's own returns, and — where it returns what a new helper returned — that helper's
+			own := map[*ssa.Function]bool{cl: true}
+			for changed, k := true, 0; changed && k < 4; k++ {
+				changed = false
+				EachInstr(cl, func(i ssa.Instruction) {
+					r, isR := i.(*ssa.Return)
+					if !isR || !own[i.Parent()] || len(r.Results) == 0 {
+						return
+					}
+					if call, isC := ReturnValue(r, len(r.Results)-1).(*ssa.Call); isC {
+						if h := StaticFunc(call.Common()); h != nil && IsNewHelper(h) && !own[h] {
+							own[h] = true
+							changed = true
+						}
+					}
+				})
+			}
 			EachInstr(cl, func(i ssa.Instruction) {
 				r, isR := i.(*ssa.Return)
-				if !isR || i.Parent() != cl || len(r.Results) == 0 {
+				if !isR || !own[i.Parent()] || len(r.Results) == 0 {
 					return
 				}
 				ev := ReturnValue(r, len(r.Results)-1)
 				if IsNilConst(ev) {
 					return
+				}
+				if call, isC := ev.(*ssa.Call); isC {
+					if h := StaticFunc(call.Common()); h != nil && own[h] && h != i.Parent() {
+						return // judged at the helper's own returns
+					}
 				}
 				nerr++
 				raw := true
